@@ -240,6 +240,9 @@ func generate(rng *vkit.Rng, budget int) []genLoop {
 		if rep == 0 {
 			add("regular n=400", s2.RegularLoop(randPoint(rng), s1.Angle(rng.Range(1e-4, 1.0)), 400).Vertices(), false, true)
 			add("regular n=400 tiny", s2.RegularLoop(randPoint(rng), s1.Angle(1e-6), 400).Vertices(), false, true)
+			// up to 10^4 vertices ([S] only)
+			add("regular n=2000", s2.RegularLoop(randPoint(rng), s1.Angle(rng.Range(1e-3, 1.4)), 2000).Vertices(), false, true)
+			add("regular n=10000", s2.RegularLoop(randPoint(rng), s1.Angle(rng.Range(1e-2, 1.0)), 10000).Vertices(), false, true)
 		}
 	}
 	return out
@@ -679,10 +682,10 @@ func run(c *vkit.Collector, rng *vkit.Rng, budget int) {
 			c.Violate("Loop.Area.complement", "empty/full loop: areas do not sum to 4*pi", sp.name)
 		}
 	}
-	gens := generate(rng, budget)
+	gens := generate(rng, 3*budget)
 	corrBudget := 70 * budget
 	for i, g := range gens {
-		full := corrBudget > 0 && (len(g.v) <= 40 || i%2 == 0)
+		full := corrBudget > 0 && (len(g.v) <= 40 || i%2 == 0) && len(g.v) <= 400
 		if len(g.v) > 40 && full {
 			corrBudget -= 5
 		}
